@@ -13,6 +13,7 @@ var props = map[string]func(*check.Ctx) int{
 	"C03": check.C03,
 	"C04": check.C04,
 	"C05": check.C05,
+	"C12": check.C12,
 }
 
 func dispatch(cmd string, args []string) bool {
